@@ -24,7 +24,10 @@ EXTENDS Integers, Sequences, FiniteSets, TLC, Json, Genotypes, TraceFunctionals
 CONSTANTS Grid,     \* set of instances [kind, ps, k, c, s]
           ShuffleAll \* TRUE: Shuffle may rewrite any cell; FALSE: only the first and the last cell
 
-I(kind, ps, k, c, s) == [kind |-> kind, ps |-> ps, k |-> k, c |-> c, s |-> s]
+I(kind, ps, k, c, s) == [kind |-> kind, ps |-> ps, k |-> k, c |-> c, s |-> s, menu |-> {}]
+(* an instance whose steps are drawn from a menu of stored genotypes (one individual): three and   *)
+(* four chains cannot be enumerated over the full step space                                        *)
+IM(kind, p, k, c, s, menu) == [kind |-> kind, ps |-> <<p>>, k |-> k, c |-> c, s |-> s, menu |-> menu]
 
 GridQuick == { I("hap", <<2>>, 2, 2, 2), I("hap", <<2>>, 3, 2, 2), I("hap", <<3>>, 2, 2, 2),
                I("hap", <<2>>, 2, 1, 3), I("hap", <<1>>, 3, 2, 2),
@@ -42,6 +45,21 @@ GridThoroughB == { I("allele", <<3>>, 3, 2, 2), I("allele", <<3>>, 3, 1, 3), I("
                    I("ped", <<2, 2>>, 2, 2, 2), I("ped", <<4, 2>>, 2, 1, 3), I("ped", <<2, 1, 1>>, 2, 1, 3) }
 GridThoroughC == { I("allele", <<2>>, 4, 2, 2), I("allele", <<3>>, 2, 3, 2), I("allele", <<2>>, 3, 3, 1) }
 GridThoroughD == { I("hap", <<2>>, 4, 2, 2) }
+(* three and four chains; with S = 2 and no burn-in a chain either holds one support (mass 1: compared at   *)
+(* every threshold) or two (mass 1/2: compared at 1/4 and 1/2 only), so that at the thresholds 5/8, 3/4, 1  *)
+(* some chains qualify and some do not.  The menus hold nested supports ({A,B} and {A}; {A,B,C} and {A,B}) *)
+(* and supports with a haplotype foreign to them (C resp. D), in sorted and unsorted storage order.         *)
+MenuDip == {<<0, 0>>, <<1, 0>>, <<0, 2>>, <<2, 2>>}
+MenuTet == {<<0, 0, 1, 2>>, <<1, 0, 1, 0>>, <<0, 0, 3, 3>>, <<3, 1, 3, 3>>}
+MenuTet3 == {<<0, 0, 1, 2>>, <<1, 0, 1, 0>>, <<3, 1, 3, 3>>}
+MenuTetSorted == {<<0, 0, 1, 2>>, <<0, 0, 1, 1>>, <<0, 0, 3, 3>>, <<1, 3, 3, 3>>}
+MenuDip3 == {<<0, 1>>, <<0, 0>>, <<2, 2>>}
+MenuAll3 == {<<0, 0>>, <<0, 1>>, <<1, 2>>}
+GridChains == { IM("hap", 2, 3, 3, 2, MenuDip), IM("hap", 4, 4, 3, 2, MenuTet3), IM("hap", 2, 3, 4, 2, MenuDip3),
+                IM("allele", 2, 3, 3, 2, MenuAll3) }
+GridChainsThorough == GridChains \cup
+              { IM("hap", 4, 4, 3, 2, MenuTet), IM("hap", 2, 3, 4, 2, MenuDip), IM("allele", 2, 3, 4, 2, MenuAll3),
+                IM("hap", 2, 3, 3, 3, MenuDip3), IM("allele", 4, 4, 3, 2, MenuTetSorted) }
 GridMutant == { I("hap", <<2>>, 2, 2, 2), I("hap", <<3>>, 2, 2, 1) }
 
 (* incongruence thresholds, <<num, den>>                                     *)
@@ -71,11 +89,13 @@ RECURSIVE Tuples(_, _)
 Tuples(k, p) == IF p = 0 THEN {<<>>} ELSE {Append(t, a) : t \in Tuples(k, p - 1), a \in 0..(k - 1)}
 Range(s) == {s[j] : j \in 1..Len(s)}
 Choices(kind, k, p) == IF kind = "hap" THEN Tuples(k, p) ELSE Range(VcfOrder(k, p))
+ChoicesOf(in, i) == IF in.menu # {} THEN in.menu ELSE Choices(in.kind, in.k, in.ps[i])
 
 Identity(k) == [a \in 1..k |-> a - 1]
 (* increasing injections 0..k-1 -> 0..k: skip exactly one label m \in 0..k    *)
 SkipOne(k, m) == [a \in 1..k |-> IF a - 1 < m THEN a - 1 ELSE a]
 Labelings(kind, k) == IF kind = "allele" THEN {SkipOne(k, m) : m \in 0..k} ELSE {Identity(k)}
+LabelingsOf(in) == IF in.menu # {} /\ in.kind = "allele" THEN {Identity(in.k), SkipOne(in.k, 1)} ELSE Labelings(in.kind, in.k)
 
 Init == /\ inst \in Grid
         /\ tr = [c \in 1..inst.c |-> <<>>]
@@ -83,7 +103,7 @@ Init == /\ inst \in Grid
         /\ b = 0
         /\ lab = Identity(inst.k)
         /\ sm = <<>>
-        /\ space = [i \in 1..Len(inst.ps) |-> Choices(inst.kind, inst.k, inst.ps[i])]
+        /\ space = [i \in 1..Len(inst.ps) |-> ChoicesOf(inst, i)]
 
 StepSpace == {st \in [1..N -> UNION {space[i] : i \in 1..N}] : \A i \in 1..N : st[i] \in space[i]}
 
@@ -96,7 +116,7 @@ Record == /\ phase = "record"
 
 Burn == /\ phase = "record"
         /\ \A c \in 1..inst.c : Len(tr[c]) = inst.s
-        /\ \E bb \in 0..(inst.s - 1), lb \in Labelings(inst.kind, inst.k) :
+        /\ \E bb \in 0..(inst.s - 1), lb \in LabelingsOf(inst) :
              /\ b' = bb
              /\ lab' = lb
              /\ sm' = Summaries(tr, bb, lb)
@@ -106,6 +126,7 @@ Burn == /\ phase = "record"
 (* rewrite the storage order of one stored genotype (adjacent transposition)  *)
 Shuffle == /\ phase = "done"
            /\ inst.kind = "hap"
+           /\ inst.menu = {}          \* menus list the storage orders themselves
            /\ \E c \in 1..inst.c, s \in 1..inst.s, q \in 1..(inst.ps[1] - 1) :
                 /\ ShuffleAll \/ <<c, s>> \in {<<1, 1>>, <<inst.c, inst.s>>}
                 /\ LET g == tr[c][s][1]
@@ -166,11 +187,22 @@ SameSupportNoIncongruence ==
      ((\A c \in 1..inst.c, s \in (b + 1)..inst.s : AllelesOf(tr[c][s][1]) = AllelesOf(tr[1][inst.s][1]))
         => \A q \in 1..Len(Thetas) : sm[1].inc[q] = {0})
 
+(* chains whose mode support stays below the threshold are not compared: the flag is the flag of the   *)
+(* qualifying chains alone (whatever the other chains hold)                                             *)
+ChainsOf(i) == [c \in 1..inst.c |-> ChainRetained(Project(tr, i), inst.c, inst.s, c, b, lab)]
+BelowThresholdChainsIgnored ==
+  Done => \A i \in 1..N : LET chs == ChainsOf(i) IN \A q \in 1..Len(Thetas) :
+            sm[i].inc[q] = IncFlags(OnlyChains(chs, Qualifying(chs, Thetas[q])), inst.ps[i], inst.kind, Thetas[q])
+(* the reading of the open finding D8 differs from the functional only by turning 1 into 2 or 2 into 1 *)
+D8ReadingSameAgreement ==
+  Done => \A i \in 1..N : \A q \in 1..Len(Thetas) : (0 \in sm[i].inc[q]) <=> (0 \in sm[i].incD8[q])
+
 (* ---- mutant definitions (Mutant_*.cfg substitute them; TLC must report a violation) ---- *)
 MutCanon(g) == g                                  \* no canonicalisation: stored order is the genotype
 MutSupportKey(g) == g                               \* support keyed on the sorted genotype, not its distinct set
 MutOccNum(xs, a) == AlleleNum(xs, a)              \* occurrence counted per copy
 MutIncFlags(chs, P, kind, th) == IncFlagsK(chs, P, TRUE, th)   \* compares modal genotypes, not supports
+MutIncFlagsNoTheta(chs, P, kind, th) == IncFlagsK(chs, P, kind # "hap", <<0, 1>>)   \* every chain is compared
 
 (* ---- what the harness replays ----------------------------------------------------------------- *)
 Dump == IF phase = "done"
